@@ -128,6 +128,16 @@ struct Prog {
 
 impl Prog {
     fn gen(rng: &mut Rng, kind: Kind) -> Prog {
+        // one program in five (index sets only) is the tiny "last owner leaves with lock-if-last while a newcomer
+        // acquires" race: small enough for the exhaustive same-thread double-stall stage of the campaign
+        if kind != Kind::Pool && rng.chance(1, 5) {
+            let cap = rng.range(1, 2) as usize;
+            let mut threads = vec![vec![Op::Acq, Op::RelLockNew], vec![Op::Acq, Op::RelNew]];
+            if rng.chance(1, 3) {
+                threads.push(vec![Op::Acq, Op::RelLockNew]);
+            }
+            return Prog { kind, cap, threads, pre_abandon: 0 };
+        }
         let cap = rng.range(1, 4) as usize;
         // 40 % of the robust programs are "several cleaners" programs: thread 0 abandons indices
         // under the dead owner id, two other threads recover the dead owner concurrently while all
@@ -397,6 +407,15 @@ fn execute(p: &Prog, mode: &Mode) -> ExecResult {
     }
     // first completed lock
     let lock_ret = all.iter().filter(|e| matches!(e.kind, K_RELLOCK | K_RECOVERLOCK) && e.r == 1).map(|e| e.ret).min();
+    // Locked means "the last owner left": nobody may still hold an index afterwards, however the acquire raced
+    // with the lock (an acquire that claimed its cell between the owner count and the lock must have failed)
+    if let Some(lr) = lock_ret {
+        for o in &own {
+            if surely_before(lr, o.3) {
+                v("index_held_after_lock", format!("index {} (acquire returned Ok) was still held after a lock-if-last release had returned Locked", o.0));
+            }
+        }
+    }
     for e in &all {
         match e.kind {
             K_ACQ if e.r == -1 => {
